@@ -3,6 +3,7 @@ package vatomic
 
 import (
 	"sync/atomic"
+	"unsafe"
 
 	"github.com/gabriel-vasile/mimetype/internal/verifx/sched"
 )
@@ -67,3 +68,130 @@ func StoreInt64(p *int64, v int64) {
 	}
 	atomic.StoreInt64(p, v)
 }
+
+// Typed atomics (sync/atomic since Go 1.19): same operations, each one a
+// scheduling point.
+
+func point(kind string, obj any) {
+	if h := sched.Active; h != nil {
+		h.Point(kind, obj)
+	}
+}
+
+type Pointer[T any] struct{ v atomic.Pointer[T] }
+
+func (x *Pointer[T]) Load() *T     { point("atomic.load", x); return x.v.Load() }
+func (x *Pointer[T]) Store(p *T)   { point("atomic.store", x); x.v.Store(p) }
+func (x *Pointer[T]) Swap(p *T) *T { point("atomic.swap", x); return x.v.Swap(p) }
+func (x *Pointer[T]) CompareAndSwap(o, n *T) bool {
+	point("atomic.cas", x)
+	return x.v.CompareAndSwap(o, n)
+}
+
+type Bool struct{ v atomic.Bool }
+
+func (x *Bool) Load() bool       { point("atomic.load", x); return x.v.Load() }
+func (x *Bool) Store(b bool)     { point("atomic.store", x); x.v.Store(b) }
+func (x *Bool) Swap(b bool) bool { point("atomic.swap", x); return x.v.Swap(b) }
+func (x *Bool) CompareAndSwap(o, n bool) bool {
+	point("atomic.cas", x)
+	return x.v.CompareAndSwap(o, n)
+}
+
+type Int32 struct{ v atomic.Int32 }
+
+func (x *Int32) Load() int32        { point("atomic.load", x); return x.v.Load() }
+func (x *Int32) Store(n int32)      { point("atomic.store", x); x.v.Store(n) }
+func (x *Int32) Add(d int32) int32  { point("atomic.add", x); return x.v.Add(d) }
+func (x *Int32) Swap(n int32) int32 { point("atomic.swap", x); return x.v.Swap(n) }
+func (x *Int32) CompareAndSwap(o, n int32) bool {
+	point("atomic.cas", x)
+	return x.v.CompareAndSwap(o, n)
+}
+
+type Int64 struct{ v atomic.Int64 }
+
+func (x *Int64) Load() int64        { point("atomic.load", x); return x.v.Load() }
+func (x *Int64) Store(n int64)      { point("atomic.store", x); x.v.Store(n) }
+func (x *Int64) Add(d int64) int64  { point("atomic.add", x); return x.v.Add(d) }
+func (x *Int64) Swap(n int64) int64 { point("atomic.swap", x); return x.v.Swap(n) }
+func (x *Int64) CompareAndSwap(o, n int64) bool {
+	point("atomic.cas", x)
+	return x.v.CompareAndSwap(o, n)
+}
+
+type Uint32 struct{ v atomic.Uint32 }
+
+func (x *Uint32) Load() uint32         { point("atomic.load", x); return x.v.Load() }
+func (x *Uint32) Store(n uint32)       { point("atomic.store", x); x.v.Store(n) }
+func (x *Uint32) Add(d uint32) uint32  { point("atomic.add", x); return x.v.Add(d) }
+func (x *Uint32) Swap(n uint32) uint32 { point("atomic.swap", x); return x.v.Swap(n) }
+func (x *Uint32) CompareAndSwap(o, n uint32) bool {
+	point("atomic.cas", x)
+	return x.v.CompareAndSwap(o, n)
+}
+
+type Uint64 struct{ v atomic.Uint64 }
+
+func (x *Uint64) Load() uint64         { point("atomic.load", x); return x.v.Load() }
+func (x *Uint64) Store(n uint64)       { point("atomic.store", x); x.v.Store(n) }
+func (x *Uint64) Add(d uint64) uint64  { point("atomic.add", x); return x.v.Add(d) }
+func (x *Uint64) Swap(n uint64) uint64 { point("atomic.swap", x); return x.v.Swap(n) }
+func (x *Uint64) CompareAndSwap(o, n uint64) bool {
+	point("atomic.cas", x)
+	return x.v.CompareAndSwap(o, n)
+}
+
+type Value struct{ v atomic.Value }
+
+func (x *Value) Load() any      { point("atomic.load", x); return x.v.Load() }
+func (x *Value) Store(v any)    { point("atomic.store", x); x.v.Store(v) }
+func (x *Value) Swap(v any) any { point("atomic.swap", x); return x.v.Swap(v) }
+func (x *Value) CompareAndSwap(o, n any) bool {
+	point("atomic.cas", x)
+	return x.v.CompareAndSwap(o, n)
+}
+
+func AddInt32(p *int32, d int32) int32     { point("atomic.add", p); return atomic.AddInt32(p, d) }
+func AddInt64(p *int64, d int64) int64     { point("atomic.add", p); return atomic.AddInt64(p, d) }
+func AddUint64(p *uint64, d uint64) uint64 { point("atomic.add", p); return atomic.AddUint64(p, d) }
+func SwapInt32(p *int32, n int32) int32    { point("atomic.swap", p); return atomic.SwapInt32(p, n) }
+func SwapInt64(p *int64, n int64) int64    { point("atomic.swap", p); return atomic.SwapInt64(p, n) }
+func SwapUint32(p *uint32, n uint32) uint32 {
+	point("atomic.swap", p)
+	return atomic.SwapUint32(p, n)
+}
+func SwapUint64(p *uint64, n uint64) uint64 {
+	point("atomic.swap", p)
+	return atomic.SwapUint64(p, n)
+}
+func CompareAndSwapInt32(p *int32, o, n int32) bool {
+	point("atomic.cas", p)
+	return atomic.CompareAndSwapInt32(p, o, n)
+}
+func CompareAndSwapInt64(p *int64, o, n int64) bool {
+	point("atomic.cas", p)
+	return atomic.CompareAndSwapInt64(p, o, n)
+}
+func CompareAndSwapUint64(p *uint64, o, n uint64) bool {
+	point("atomic.cas", p)
+	return atomic.CompareAndSwapUint64(p, o, n)
+}
+func LoadPointer(p *unsafe.Pointer) unsafe.Pointer {
+	point("atomic.load", p)
+	return atomic.LoadPointer(p)
+}
+func StorePointer(p *unsafe.Pointer, v unsafe.Pointer) {
+	point("atomic.store", p)
+	atomic.StorePointer(p, v)
+}
+func SwapPointer(p *unsafe.Pointer, v unsafe.Pointer) unsafe.Pointer {
+	point("atomic.swap", p)
+	return atomic.SwapPointer(p, v)
+}
+func CompareAndSwapPointer(p *unsafe.Pointer, o, n unsafe.Pointer) bool {
+	point("atomic.cas", p)
+	return atomic.CompareAndSwapPointer(p, o, n)
+}
+func LoadUintptr(p *uintptr) uintptr     { point("atomic.load", p); return atomic.LoadUintptr(p) }
+func StoreUintptr(p *uintptr, v uintptr) { point("atomic.store", p); atomic.StoreUintptr(p, v) }
